@@ -22,6 +22,7 @@ type MCRegion struct {
 
 // MCEvent is one memcall call.
 type MCEvent struct {
+	Seq   int64
 	Idx   int
 	Op    string
 	Base  uintptr
@@ -63,7 +64,7 @@ func (m *Memcall) next(op string, b []byte) (ev *MCEvent, fail bool) {
 	idx := m.n
 	m.n++
 	fail = m.FailAt[idx]
-	m.Events = append(m.Events, MCEvent{Idx: idx, Op: op, Base: base(b), Fault: fail})
+	m.Events = append(m.Events, MCEvent{Seq: Seq.Add(1), Idx: idx, Op: op, Base: base(b), Fault: fail})
 	return &m.Events[len(m.Events)-1], fail
 }
 
@@ -308,6 +309,19 @@ func (m *Memcall) OpsFrom(from int) []string {
 	for _, e := range m.Events {
 		if e.Idx >= from {
 			out = append(out, e.Op)
+		}
+	}
+	return out
+}
+
+// EventsFrom returns a copy of the calls with index >= from.
+func (m *Memcall) EventsFrom(from int) []MCEvent {
+	m.mu.Lock()
+	defer m.mu.Unlock()
+	var out []MCEvent
+	for _, e := range m.Events {
+		if e.Idx >= from {
+			out = append(out, e)
 		}
 	}
 	return out
